@@ -226,6 +226,8 @@ class Repo:
                     pass
                 else:
                     ci.methods[st.name] = fi
+                    if ci.mangle(st.name) != st.name:
+                        ci.methods[ci.mangle(st.name)] = fi
                     self.functions[fi.qualname] = fi
             elif isinstance(st, ast.Assign):
                 for t in st.targets:
